@@ -119,11 +119,46 @@ class TseitinTransformation:
     def goal2intcnf(self, goal: z3.Goal) -> list[list[int]]:
         cnf = []
         for expr in goal:
-            if z3.is_or(expr):
-                cnf.append([self.expr_to_signed_id(x) for x in expr.children()])
-            else:
-                cnf.append([self.expr_to_signed_id(expr)])
+            literals = expr.children() if z3.is_or(expr) else [expr]
+            clause = []
+            satisfied = False
+            for literal in literals:
+                value = self.constant_value(literal)
+                if value is True:
+                    # a true literal satisfies the whole clause
+                    satisfied = True
+                    break
+                if value is None:
+                    clause.append(self.expr_to_signed_id(literal))
+                # a false literal contributes nothing
+            if satisfied:
+                continue
+            if not clause:
+                # unsatisfiable clause: encode as x and not x (an empty soft clause is not accepted by RC2)
+                pool = cast(IDPool, self.epistemic_state["pool"])  # type: ignore[assignment]
+                false_id = pool.id("constant_false")
+                cnf.append([false_id])
+                cnf.append([-false_id])
+                continue
+            cnf.append(clause)
         return cnf
+
+    """
+    Truth value of a literal that is a Boolean constant (Top/Bottom, possibly negated), else None.
+
+    Context:
+        Helper function called by goal2intcnf: constants must never be mapped to propositional variables
+    """
+
+    @staticmethod
+    def constant_value(literal: z3.ExprRef) -> bool | None:
+        negated = z3.is_not(literal)
+        atom = literal.children()[0] if negated else literal
+        if z3.is_true(atom):
+            return not negated
+        if z3.is_false(atom):
+            return negated
+        return None
 
     """
     Takes z3 expression and creates or retrieves unique ID of expression using pysat.formula.IDPool
